@@ -7,14 +7,15 @@ use crate::core::coord::PropDef;
 use crate::core::run::{RunSpec, ScenFut};
 use crate::core::sim;
 use crate::core::store::SimStore;
-use cardinalsin::ingester::{Ingester, IngesterConfig};
+use cardinalsin::ingester::{ChunkMetadata, Ingester, IngesterConfig, ParquetWriter};
 use cardinalsin::metadata::{LocalMetadataClient, MetadataClient, ObjectStoreMetadataClient, ObjectStoreMetadataConfig};
 use cardinalsin::query::{QueryConfig, QueryNode};
 use cardinalsin::schema::MetricSchema;
-use cardinalsin::sharding::{ShardKey, SplitPhase};
+use cardinalsin::sharding::{ShardKey, ShardSplitter, SplitPhase};
 use cardinalsin::StorageConfig;
 use object_store::memory::InMemory;
-use object_store::ObjectStore;
+use object_store::path::Path;
+use object_store::{ObjectStore, PutPayload};
 use std::collections::BTreeMap;
 use std::sync::Arc;
 
@@ -22,13 +23,13 @@ pub static DEF: PropDef = PropDef {
     id: "C15",
     level: "exploration",
     engine: "query",
-    rule: "one run = a real Ingester whose shard (the id the ingester itself derives for the batches: tenant, metric hash, coarse time) has a split state in the DualWrite or Backfill phase, set through the real start_split / update_split_progress, on either catalog backend; 4..10 accepted batches of 1..5 rows with Int64 timestamps below / at / above the split point, several series per (timestamp, metric) differing in labels or value, and genuine exact duplicates; then 4..8 queries (projections with and without the key columns, count/sum/min/max, GROUP BY) through a real QueryNode while the split is active; routing oracle: ids in chunks under new shard A == accepted rows with ts < split, under B ts >= split, each once per accepted write; read oracle: answer == the same SQL on a MemTable of the accepted rows; distinct = distinct (dataset, query text) hash; non-trivial = completed AND rows fell on both sides of the split point",
+    rule: "one run = a real Ingester whose shard (the id the ingester itself derives for the batches: tenant, metric hash, coarse time) has a split state in the DualWrite or Backfill phase, set through the real start_split / update_split_progress, on either catalog backend; in half of the runs the old shard also has 1..3 historical chunks and, in the Backfill phase, the real ShardSplitter::run_backfill copies them before / between / after the writes (a third of those back-fills is interrupted by one storage error, so reads see a partial back-fill); 4..10 accepted batches of 1..5 rows with Int64 timestamps below / at / above the split point, several series per (timestamp, metric) differing in labels or value, and genuine exact duplicates; then 4..8 queries (projections with and without the key columns, count/sum/min/max, GROUP BY) through a real QueryNode while the split is active; routing oracle: ids in chunks under new shard A == accepted rows with ts < split, under B ts >= split, each once per accepted write; read oracle: answer == the same SQL on a MemTable of the historical + accepted rows; back-fill copies hold only historical rows of their side, once; distinct = distinct (dataset, query text) hash; non-trivial = completed AND rows fell on both sides of the split point",
     quick_runs: 1000,
     thorough_runs: 8000,
     run_cap_ms: 120_000,
     scen,
     extra_phase: None,
-    real: &["Ingester::write -> write_with_split_awareness (dual write, split_batch_by_key, write_to_shard)", "MetadataClient::{start_split, update_split_progress, has_active_split}", "QueryNode::query incl. dedup::dedup_batches"],
+    real: &["Ingester::write -> write_with_split_awareness (dual write, split_batch_by_key, write_to_shard)", "MetadataClient::{start_split, update_split_progress, has_active_split}", "ShardSplitter::run_backfill (copies of historical chunks)", "QueryNode::query (split-time exclusion of new-shard chunks)"],
     stub: &["S3 = InMemory behind SimStore"],
     assumptions: &["Int64 timestamps (the dual-write path rejects other types with an error, i.e. such rows are not accepted)", "all rows of a batch share the metric of its first row (the ingester derives one shard id per batch)"],
 };
@@ -57,6 +58,34 @@ fn scen(_spec: RunSpec) -> ScenFut {
         let metric = ["cpu", "mem"][sim::w(2) as usize];
         let shard = shard_of(metric, split_ts);
         let (na, nb) = ("newshard-aaaa".to_string(), "newshard-bbbb".to_string());
+        // historical chunks of the old shard (stored under a path that carries its id, which is how the
+        // back-fill finds them); present in a part of the runs
+        let mut next_id = 1i64;
+        let mut historical: Vec<Row> = Vec::new();
+        let n_hist = if sim::w_bool(50) { sim::w_range(1, 3) } else { 0 };
+        let pw = ParquetWriter::new();
+        for k in 0..n_hist {
+            let n = sim::w_range(1, 4);
+            let rows: Vec<Row> = (0..n)
+                .map(|_| {
+                    let ts = match sim::w(6) {
+                        0 => split_ts,
+                        1 => split_ts - 1,
+                        2 | 3 => split_ts - (1 + sim::w(300)) as i64 * SEC,
+                        _ => split_ts + (1 + sim::w(300)) as i64 * SEC,
+                    };
+                    let r = Row { id: next_id, ts, metric: metric.to_string(), host: [None, Some("a".to_string()), Some("b".to_string())][sim::w(3) as usize].clone(), vi: Some(sim::w(5) as i64), vf: None, vu: None };
+                    next_id += 1;
+                    r
+                })
+                .collect();
+            let bytes = pw.write_batch(&batch(1, &rows)).unwrap();
+            let path = format!("default/data/shard={shard}/hist_{k}.parquet");
+            store.put(&Path::from(path.clone()), PutPayload::from(bytes.clone())).await.unwrap();
+            let (mn, mx) = (rows.iter().map(|r| r.ts).min().unwrap(), rows.iter().map(|r| r.ts).max().unwrap());
+            meta.register_chunk(&path, &ChunkMetadata { path: path.clone(), min_timestamp: mn, max_timestamp: mx, row_count: rows.len() as u64, size_bytes: bytes.len() as u64 }).await.unwrap();
+            historical.extend(rows);
+        }
         if let Err(e) = meta.start_split(&shard, vec![na.clone(), nb.clone()], split_ts.to_be_bytes().to_vec()).await {
             sim::with(|st| st.abort = Some(format!("start_split: {e}")));
             return;
@@ -67,12 +96,35 @@ fn scen(_spec: RunSpec) -> ScenFut {
         icfg.wal.enabled = false;
         icfg.flush_row_count = [1usize, 3, 100][sim::w(3) as usize];
         let ing = Ingester::new(icfg, store.clone(), meta.clone(), StorageConfig::default(), MetricSchema::default_metrics());
+        // the real back-fill (in the Backfill phase, when there is history): before, in the middle of, or after the writes;
+        // a third of these runs interrupt it once with a storage error, so the reads see a partial back-fill
+        let backfill_at: Option<u32> = if phase == SplitPhase::Backfill && n_hist > 0 { Some(sim::w(3)) } else { None };
+        let interrupt_backfill = backfill_at.is_some() && sim::w(3) == 2;
+        let fail_at = sim::w(16) as u64;
+        let run_backfill = |meta: Arc<dyn MetadataClient>, store: Arc<dyn ObjectStore>, shard: String, na: String, nb: String| async move {
+            let sp = ShardSplitter::new(meta, store);
+            if interrupt_backfill {
+                let at = sim::store_gate_ord() + fail_at;
+                sim::set_cfg(|c| c.forced = Some((at, crate::core::sim::Fault::FailBefore)));
+            }
+            let r = sp.run_backfill(&shard, &[na, nb], &split_ts.to_be_bytes()).await;
+            sim::set_cfg(|c| c.forced = None);
+            match r {
+                Ok(()) => sim::probe("backfill-ran-to-completion"),
+                Err(e) => {
+                    sim::probe("backfill-interrupted");
+                    sim::log(format!("backfill stopped: {e}"));
+                }
+            }
+        };
         // workload
-        let mut next_id = 1i64;
         let mut accepted: Vec<Row> = Vec::new();
         let nb_batches = sim::w_range(4, 10);
         let mut prev_row: Option<Row> = None;
-        for _ in 0..nb_batches {
+        for bi in 0..nb_batches {
+            if backfill_at == Some(0) && bi == 0 || backfill_at == Some(1) && bi == nb_batches / 2 {
+                run_backfill(meta.clone(), store.clone(), shard.clone(), na.clone(), nb.clone()).await;
+            }
             let n = sim::w_range(1, 5);
             let mut rows: Vec<Row> = Vec::new();
             for _ in 0..n {
@@ -112,6 +164,9 @@ fn scen(_spec: RunSpec) -> ScenFut {
                 }
             }
         }
+        if backfill_at == Some(2) {
+            run_backfill(meta.clone(), store.clone(), shard.clone(), na.clone(), nb.clone()).await;
+        }
         // flush what is still buffered for the old shard
         ing.shutdown_token().cancel();
         ing.run_flush_timer().await;
@@ -122,6 +177,8 @@ fn scen(_spec: RunSpec) -> ScenFut {
         let mut in_a: BTreeMap<i64, u32> = BTreeMap::new();
         let mut in_b: BTreeMap<i64, u32> = BTreeMap::new();
         let mut in_old: BTreeMap<i64, u32> = BTreeMap::new();
+        let mut bf_a: BTreeMap<i64, u32> = BTreeMap::new();
+        let mut bf_b: BTreeMap<i64, u32> = BTreeMap::new();
         for c in &chunks {
             let bs = match read_chunk(&inner, &c.chunk_path).await {
                 Ok(b) => b,
@@ -130,7 +187,11 @@ fn scen(_spec: RunSpec) -> ScenFut {
                     continue;
                 }
             };
-            let target = if c.chunk_path.contains(&format!("shard={na}")) {
+            let target = if c.chunk_path.starts_with(&format!("{na}/backfill_")) {
+                &mut bf_a
+            } else if c.chunk_path.starts_with(&format!("{nb}/backfill_")) {
+                &mut bf_b
+            } else if c.chunk_path.contains(&format!("shard={na}")) {
                 &mut in_a
             } else if c.chunk_path.contains(&format!("shard={nb}")) {
                 &mut in_b
@@ -145,7 +206,20 @@ fn scen(_spec: RunSpec) -> ScenFut {
         }
         let want_a: BTreeMap<i64, u32> = accepted.iter().filter(|r| r.ts < split_ts).map(|r| (r.id, 1)).collect();
         let want_b: BTreeMap<i64, u32> = accepted.iter().filter(|r| r.ts >= split_ts).map(|r| (r.id, 1)).collect();
-        let want_old: BTreeMap<i64, u32> = accepted.iter().map(|r| (r.id, 1)).collect();
+        let want_old: BTreeMap<i64, u32> = accepted.iter().chain(historical.iter()).map(|r| (r.id, 1)).collect();
+        // back-fill copies: never a row of the wrong side, never a row twice, never a row that is not historical
+        // (completeness of the back-fill is C14's subject; here it may have been interrupted)
+        for (side, got, lower) in [("A", &bf_a, true), ("B", &bf_b, false)] {
+            for (id, n) in got {
+                let ok = historical.iter().any(|r| r.id == *id && ((r.ts < split_ts) == lower)) && *n == 1;
+                if !ok {
+                    sim::violation("C15/routing/backfill-copy-wrong", format!("back-fill copy under new shard {side} holds id {id} x{n}: not a historical row of that side exactly once"));
+                }
+            }
+        }
+        if !bf_a.is_empty() || !bf_b.is_empty() {
+            sim::probe("reads-with-backfill-copies-present");
+        }
         if in_a != want_a || in_b != want_b {
             let at_split_wrong = accepted.iter().any(|r| r.ts == split_ts && in_a.contains_key(&r.id));
             sim::violation(
@@ -166,7 +240,8 @@ fn scen(_spec: RunSpec) -> ScenFut {
                 return;
             }
         };
-        let all = batch(1, &accepted);
+        let everything: Vec<Row> = historical.iter().chain(accepted.iter()).cloned().collect();
+        let all = batch(1, &everything);
         let lo = split_ts - 400 * SEC;
         let hi = split_ts + 400 * SEC;
         let w = format!("timestamp >= {lo} AND timestamp <= {hi}");
@@ -179,7 +254,7 @@ fn scen(_spec: RunSpec) -> ScenFut {
             ("narrow", format!("SELECT id, timestamp, metric_name FROM metrics WHERE timestamp >= {} AND timestamp <= {}", split_ts - 1, split_ts + 1)),
         ];
         let nq = sim::w_range(4, 6) as usize;
-        let mut hist = format!("{}:", accepted.len());
+        let mut hist = format!("{}:{}:{:?}:", accepted.len(), historical.len(), backfill_at);
         for (name, sql) in forms.iter().take(nq) {
             hist.push_str(sql);
             let want = match reference(sql, &all).await {
